@@ -1,6 +1,6 @@
 (* Run.C06 — driver for the generated correspondence cases of C06. *)
 From Coq Require Import ZArith String List Bool.
-From JMCV Require Import Base.Dec MC.Syntax MC.Print Model.Names Model.Switch Run.Common.
+From JMCV Require Import Base.Dec MC.Syntax MC.Print Model.Names Model.Switch Model.SwitchRet Run.Common.
 Import ListNotations.
 Open Scope string_scope.
 
@@ -8,9 +8,10 @@ Open Scope string_scope.
    class of the exception it raised *)
 Inductive real_out := RFiles (fs : list (string * string)) | RError (exc : string).
 
-(* c_funcs: the user functions of the pack in source order (name, body) *)
+(* c_funcs: the user functions of the pack in source order (name, body); since round 4 in the statement
+   language of Model.SwitchRet (returns, if, while inside case bodies; the repaired macro dispatcher) *)
 Record case := mkCase {
-  c_nm : names; c_cfg : cfg; c_funcs : list (string * list stmt); c_real : real_out
+  c_nm : names; c_cfg : cfg; c_funcs : list (string * list rstmt); c_real : real_out
 }.
 
 Definition err_str (e : error) : string :=
@@ -24,7 +25,7 @@ Definition err_str (e : error) : string :=
 Definition FUEL : nat := 400.
 
 Definition model_funcs (c : case) : result (list func) :=
-  compile_functions FUEL (c_nm c) (c_cfg c) (c_funcs c) cs0.
+  compile_functions_r FUEL (c_nm c) (c_cfg c) (c_funcs c) rs0.
 
 Fixpoint sget (l : list (string * string)) (k : string) : option string :=
   match l with
